@@ -358,77 +358,100 @@ def splice_item(asm, spec, probe=False):
     return chain, it, sf
 
 
+class ModNode:
+    def __init__(self, name):
+        self.name = name
+        self.entries = []   # ('raw', relpath) | ('item', ItemSpec) | ('text', text, origin)
+        self.children = {}
+        self.order = []
+
+    def child(self, name):
+        if name not in self.children:
+            self.children[name] = ModNode(name)
+            self.order.append(name)
+            self.entries.append(('mod', name))
+        return self.children[name]
+
+
 def assemble(unit_dir, out_path, probe=False):
     """unit_dir contains unit.json:
-       {"prelude": [files], "spec": [files], "overlays": [files], "features": [...]}
+       {"layout": [ {"module": "a::b" | "", "include": "file.rs"} |
+                    {"module": "...", "overlay": "file.ov"} , ... ],
+        "features": [...]}
+    Entries are emitted in order inside their module; modules are emitted
+    where they are first mentioned in their parent.  Every non-root module
+    starts with `use vstd::prelude::*; use crate::*;`.
     """
     cfg = json.load(open(os.path.join(unit_dir, 'unit.json')))
     asm = Assembled()
-    hdr = '// GENERATED by tools/extract.py from /repo working tree + %s — do not edit\n' % unit_dir
+    hdr = '// GENERATED by tools/extract.py from /repo working tree + %s -- do not edit\n' % unit_dir
     for feat in cfg.get('features', []):
         hdr += '#![feature(%s)]\n' % feat
-    hdr += '#![allow(unused_imports, dead_code, unused_variables, unused_mut, unused_parens, unused_braces, non_camel_case_types)]\n'
+    hdr += '#![allow(unused_imports, dead_code, unused_variables, unused_mut, unused_parens, unused_braces, non_camel_case_types, unused_macros, unused_assignments)]\n'
     hdr += 'use vstd::prelude::*;\n'
-    for l in cfg.get('uses', []):
-        hdr += l + '\n'
     hdr += 'verus! {\n'
     asm.add(hdr, ('gen',))
+    root = ModNode('')
 
-    def include(rel):
-        p = os.path.normpath(os.path.join(unit_dir, rel))
-        asm.add('// ---- %s\n' % rel, ('gen',))
-        with open(p) as f:
-            for n, l in enumerate(f, 1):
-                asm.add(l if l.endswith('\n') else l + '\n', ('file', p, n))
+    def node(path):
+        n = root
+        if path:
+            for part in path.split('::'):
+                n = n.child(part)
+        return n
 
-    for rel in cfg.get('prelude', []):
-        include(rel)
-    for rel in cfg.get('spec', []):
-        include(rel)
-    specs = []
-    for rel in cfg.get('overlays', []):
-        specs += parse_overlay(os.path.normpath(os.path.join(unit_dir, rel)))
-    # group: module -> consecutive items with the same container chain
-    cur_mod = None
-    cur_container = None  # (file, container item start)
+    for ent in cfg['layout']:
+        n = node(ent.get('module', ''))
+        if 'include' in ent:
+            n.entries.append(('raw', ent['include']))
+        elif 'overlay' in ent:
+            for sp in parse_overlay(os.path.normpath(os.path.join(unit_dir, ent['overlay']))):
+                sp.module = ent.get('module', '')
+                n.entries.append(('item', sp))
 
-    def close_container():
-        nonlocal cur_container
-        if cur_container is not None:
-            asm.add('}\n', ('gen',))
-            cur_container = None
+    def emit(n, depth):
+        cur_container = None
 
-    def close_mod():
-        nonlocal cur_mod
+        def close_container():
+            nonlocal cur_container
+            if cur_container is not None:
+                asm.add('}\n', ('gen',))
+                cur_container = None
+
+        for e in n.entries:
+            if e[0] == 'raw':
+                close_container()
+                p = os.path.normpath(os.path.join(unit_dir, e[1]))
+                asm.add('// ---- %s\n' % e[1], ('gen',))
+                with open(p) as f:
+                    for k, l in enumerate(f, 1):
+                        asm.add(l if l.endswith('\n') else l + '\n', ('file', p, k))
+            elif e[0] == 'mod':
+                close_container()
+                asm.add('pub mod %s {\nuse vstd::prelude::*;\nuse crate::*;\n' % e[1], ('gen',))
+                emit(n.children[e[1]], depth + 1)
+                asm.add('} // mod %s\n' % e[1], ('gen',))
+            else:
+                sp = e[1]
+                sf = source(sp.file)
+                try:
+                    chain, it = sf.find(sp.selector)
+                except KeyError as ex:
+                    raise LostAnchor('item not found: %s in %s (%s)' % (sp.selector, sp.file, ex))
+                key = (sp.file, chain[-1].start) if chain else None
+                if key != cur_container:
+                    close_container()
+                    if chain:
+                        if len(chain) > 1:
+                            raise Unsupported('nested containers not supported: %s' % sp.selector)
+                        c = chain[0]
+                        asm.add(sf.src[c.head_start:c.body_open + 1] + '\n',
+                                ('repo', sp.file, c.head_start))
+                        cur_container = key
+                splice_item(asm, sp, probe)
         close_container()
-        if cur_mod is not None:
-            asm.add('} // mod %s\n' % cur_mod, ('gen',))
-            cur_mod = None
 
-    for sp in specs:
-        if sp.module != cur_mod:
-            close_mod()
-            if sp.module is not None:
-                asm.add('pub mod %s {\nuse super::*;\n' % sp.module, ('gen',))
-            cur_mod = sp.module
-        sf = source(sp.file)
-        try:
-            chain, it = sf.find(sp.selector)
-        except KeyError as e:
-            raise LostAnchor('item not found: %s in %s (%s)' % (sp.selector, sp.file, e))
-        key = (sp.file, chain[-1].start) if chain else None
-        if key != cur_container:
-            close_container()
-            if chain:
-                if len(chain) > 1:
-                    raise Unsupported('nested containers not supported: %s' % sp.selector)
-                c = chain[0]
-                # header verbatim, from first real token to the opening brace
-                asm.add(sf.src[c.head_start:c.body_open + 1] + '\n',
-                        ('repo', sp.file, c.head_start))
-                cur_container = key
-        splice_item(asm, sp, probe)
-    close_mod()
+    emit(root, 0)
     asm.add('} // verus!\nfn main() {}\n', ('gen',))
     # output line ranges of every item
     line = 1
